@@ -6,7 +6,7 @@ import wire
 from props.common import quiet_ccp
 
 ID = "C14"
-LEAN_MODULES = ["Ccp.Props.C14"]
+LEAN_MODULES = ["Ccp.Props.C14", "Ccp.Props.RxC14"]
 RULE = ("texts: every subset of {0..11} as a shuffled comma list (quick and thorough: exhaustive, 4096), "
         "random lists of singles/intervals over 0..70000 in any order with overlaps, duplicates, blanks around "
         "numbers and hyphens, descending intervals, plus a malformed stream (',,', 'a-b-c', letters, empty parts); "
@@ -30,6 +30,7 @@ LEVEL_NOTE = ("Trusted: Lean kernel; axioms propext/Classical.choice/Quot.sound 
               "restricted to ASCII digits, sign and surrounding whitespace. Proved about the model, measured against the code. "
               "readers_pure is a statement about the model's step function (reads return `data` unchanged by construction); that the "
               "real accessors do not mutate is measured by the correspondence (state re-read after every accessor sequence), not proved.")
+LEVEL_NOTE += (" " + "regexes_as_modelled (Ccp.RxC14): the literal separators of CiscoRange.__init__ + parse_integers and the helpers they reach (',,' test, split(','), '-' test, split('-'), the digit filter) are re-read from /repo's AST on every run and proved equal to the ones Model/Range.lean hard-wires (and no regex call has appeared).")
 EXHAUSTIVE = {"quick": False, "thorough": False}
 ASSUMPTIONS = [
     "model int() = optional surrounding whitespace, optional sign, ASCII digits",
